@@ -113,6 +113,7 @@ struct FileSpec {
     msgs: Vec<u32>,         // uids
     garbage: Vec<Vec<u8>>,  // msgs.len() + 1 runs: before each message and at the end
     missing: bool,          // never created
+    pad: u32,               // number of blanks in front of everything (structural: may exceed the scanned 512 KiB)
 }
 #[derive(Clone, Debug)]
 struct Scn {
@@ -122,7 +123,7 @@ struct Scn {
 impl Scn {
     fn json(&self) -> Value {
         json!({"msgs": self.msgs.iter().map(|m| m.json()).collect::<Vec<_>>(),
-               "files": self.files.iter().map(|f| json!({"msgs": f.msgs, "garbage": f.garbage, "missing": f.missing})).collect::<Vec<_>>()})
+               "files": self.files.iter().map(|f| json!({"msgs": f.msgs, "garbage": f.garbage, "missing": f.missing, "pad": f.pad})).collect::<Vec<_>>()})
     }
     fn from_json(v: &Value) -> Scn {
         Scn {
@@ -135,6 +136,7 @@ impl Scn {
                     msgs: serde_json::from_value(f["msgs"].clone()).unwrap(),
                     garbage: serde_json::from_value(f["garbage"].clone()).unwrap(),
                     missing: f["missing"].as_bool().unwrap(),
+                    pad: f["pad"].as_u64().unwrap_or(0) as u32,
                 })
                 .collect(),
         }
@@ -142,7 +144,7 @@ impl Scn {
     fn file_bytes(&self, k: usize) -> (Vec<u8>, usize) {
         // bytes and the number of messages that end within the first SCAN bytes
         let f = &self.files[k];
-        let mut out = vec![];
+        let mut out = vec![0x20u8; f.pad as usize];
         let mut scan = 0;
         for (i, uid) in f.msgs.iter().enumerate() {
             out.extend_from_slice(&f.garbage[i]);
@@ -1087,15 +1089,15 @@ fn gen_scn(rng: &mut Rng, big: bool) -> Scn {
         .map(|msgs| {
             let with_garbage = rng.chance(1, 2);
             let garbage = (0..=msgs.len()).map(|_| if with_garbage && rng.chance(1, 3) { gen_garbage(rng, 12) } else { vec![] }).collect();
-            FileSpec { msgs, garbage, missing: false }
+            FileSpec { msgs, garbage, missing: false, pad: 0 }
         })
         .collect();
     // odd files: missing, empty, garbage only
     if rng.chance(1, 5) {
-        fs.push(FileSpec { msgs: vec![], garbage: vec![vec![]], missing: true });
+        fs.push(FileSpec { msgs: vec![], garbage: vec![vec![]], missing: true, pad: 0 });
     }
     if rng.chance(1, 6) {
-        fs.push(FileSpec { msgs: vec![], garbage: vec![if rng.chance(1, 2) { vec![] } else { gen_garbage(rng, 40) }], missing: false });
+        fs.push(FileSpec { msgs: vec![], garbage: vec![if rng.chance(1, 2) { vec![] } else { gen_garbage(rng, 40) }], missing: false, pad: 0 });
     }
     Scn { msgs, files: fs }
 }
@@ -1214,9 +1216,27 @@ fn corpus_tie() -> Scn {
         mk(3, RHO + 250, 0, 4),
         mk(4, RHO + 260, 0, 5),
     ];
-    let f = |v: Vec<u32>| FileSpec { garbage: vec![vec![]; v.len() + 1], msgs: v, missing: false };
+    let f = |v: Vec<u32>| FileSpec { garbage: vec![vec![]; v.len() + 1], msgs: v, missing: false, pad: 0 };
     let s = Scn { msgs, files: vec![f(vec![0, 1]), f(vec![2, 3]), f(vec![4]), f(vec![5])] };
     s
+}
+
+/// odd files: 0 normal (ECU 1), 1 missing, 2 empty, 3 garbage only, 4 a message behind 530000 blanks (beyond the
+/// 512 KiB convert scans: the file counts as one without DLT message), 5 normal (ECU 2)
+fn corpus_odd() -> (Scn, Vec<Vec<usize>>) {
+    let mk = |ecu: u8, rt: u64, ts: u32, mcnt: u8| M { ecu, rt, ts, mcnt, ext: true, apid: 1, ctid: 2, boot: 0, fill: 0, creq: false, has_ts: true };
+    let msgs = vec![mk(1, RHO, 0, 0), mk(1, RHO + 1_000_000, 10_000, 1), mk(3, RHO + 500_000, 0, 2), mk(2, RHO + 700_000, 0, 3), mk(2, RHO + 900_000, 2_000, 4)];
+    let f = |v: Vec<u32>, pad: u32| FileSpec { garbage: vec![vec![]; v.len() + 1], msgs: v, missing: false, pad };
+    let files = vec![
+        f(vec![0, 1], 0),
+        FileSpec { msgs: vec![], garbage: vec![vec![]], missing: true, pad: 0 },
+        f(vec![], 0),
+        FileSpec { msgs: vec![], garbage: vec![vec![1, 2, 3, b'D', b'L', b'T', 0, 0, 0, 0, 0, 0, 0, 0, 0, 0, 0, 0, 0, 0, 0, 0, 0, 0]], missing: false, pad: 0 },
+        f(vec![2], 530_000),
+        f(vec![3, 4], 17),
+    ];
+    let lists = vec![vec![1], vec![2], vec![3], vec![4], vec![1, 2], vec![1, 0], vec![5, 4, 3, 2, 1, 0], vec![4, 5], vec![0, 0, 5, 0]];
+    (Scn { msgs, files }, lists)
 }
 
 fn perms4() -> Vec<Vec<usize>> {
@@ -1276,6 +1296,21 @@ fn main() {
                 continue;
             }
             plans.push(Plan { scn: 0, args: p.iter().map(|k| (*k, false)).collect(), opts: Opts::none(3), tags: vec!["corpus_tie"] });
+        }
+    }
+    {
+        let (scn, lists) = corpus_odd();
+        let no = w.scns.len();
+        scn.write_files(&w.root.join(format!("s{}", no)));
+        w.scns.push(scn);
+        for (i, l) in lists.into_iter().enumerate() {
+            let mut o = Opts::none(if i % 2 == 0 { 3 } else { 0 });
+            o.ofile = i % 3 != 0;
+            if i == 6 {
+                o.eac = vec![Flt { kind: 0, enabled: true, ecu: vec![2, 3], apid: Some(1), ctid: None }];
+                o.b = Some(1);
+            }
+            plans.push(Plan { scn: no, args: l.iter().map(|k| (*k, false)).collect(), opts: o, tags: vec!["corpus_odd_files"] });
         }
     }
     let nscn = a.count.unwrap_or(match a.tier.as_str() {
